@@ -1817,13 +1817,11 @@ def generate_ordered_map_to_left_right_unique_partial_old(d_j, left, right, left
         elif left[i] > right[j]:
             j += 1
         else:
+            # 'right' has no duplicates, so 'j' can stay on the matching row: the end of this
+            # chunk of 'left' need not be the end of the run of equal left keys, and a larger
+            # left key moves 'j' on through the branch above
             left_to_right[i] = j + d_j
-            if i+1 >= len(left) or left[i+1] != left[i]:
-                j += 1
             i += 1
-            # if j+1 < len(right) and right[j+1] != right[j]:
-            #     i += 1
-            # j += 1
     return i, j, unmapped
 
 
